@@ -96,6 +96,17 @@ func main() {
 							sites = append(sites, Site{rel, cur(stack), "range-map", expr})
 						}
 					}
+				case *ast.SelectorExpr:
+					if id, ok := x.X.(*ast.Ident); ok {
+						if pn, ok := p.TypesInfo.Uses[id].(*types.PkgName); ok && pn.Imported().Path() == "time" && x.Sel.Name == "Local" {
+							sites = append(sites, Site{rel, cur(stack), "hostzone", "time.Local"})
+						}
+					}
+					if x.Sel.Name == "Local" {
+						if tv, ok := p.TypesInfo.Types[x.X]; ok && tv.Type != nil && tv.Type.String() == "time.Time" {
+							sites = append(sites, Site{rel, cur(stack), "hostzone", "Time.Local"})
+						}
+					}
 				case *ast.GoStmt:
 					sites = append(sites, Site{rel, cur(stack), "go", ""})
 				case *ast.SelectStmt:
@@ -107,6 +118,14 @@ func main() {
 								path := pn.Imported().Path()
 								if path == "time" && (sel.Sel.Name == "Now" || sel.Sel.Name == "Since" || sel.Sel.Name == "Until" || sel.Sel.Name == "After" || sel.Sel.Name == "Tick" || sel.Sel.Name == "NewTimer" || sel.Sel.Name == "Sleep") {
 									sites = append(sites, Site{rel, cur(stack), "wallclock", "time." + sel.Sel.Name})
+								}
+								// times in the host's zone: calendar arithmetic on them (AddDate, Date, Truncate to days,
+								// formatting) depends on the node's TZ setting and its tzdata
+								if path == "time" && (sel.Sel.Name == "Unix" || sel.Sel.Name == "UnixMilli" || sel.Sel.Name == "UnixMicro" || sel.Sel.Name == "LoadLocation" || sel.Sel.Name == "ParseInLocation" || sel.Sel.Name == "Parse") {
+									sites = append(sites, Site{rel, cur(stack), "hostzone", "time." + sel.Sel.Name})
+								}
+								if path == "os" && (sel.Sel.Name == "Getenv" || sel.Sel.Name == "LookupEnv" || sel.Sel.Name == "Hostname" || sel.Sel.Name == "Getpid" || sel.Sel.Name == "Environ") {
+									sites = append(sites, Site{rel, cur(stack), "hostenv", "os." + sel.Sel.Name})
 								}
 								if path == "math/rand" || path == "crypto/rand" || strings.HasSuffix(path, "libs/rand") {
 									sites = append(sites, Site{rel, cur(stack), "rand", path + "." + sel.Sel.Name})
